@@ -4,6 +4,12 @@ import json, os, re, sys
 V = os.path.dirname(os.path.abspath(__file__))
 CHECKS = {
  # id: (level, technique, text, note, design_ref, engine)
+ "C02": ("model_checking", "explicit-state BFS over request histories executed on the real handlers, responses decoded and compared with a reference model; exhaustive sequence-number sweep",
+         "Breadth-first search over all histories (depth 5 quick / 6 thorough) of an alphabet of association, heartbeat, PFD, establishment (4 CP SEIDs incl. 0 and 2^64-1, equal SEIDs on two sessions, CHOOSE/UE-IP allocation, wrong node), modification (accepted, CP F-SEID change, rejected), deletion, unknown-session and response-type messages over 2 associations x <=3 sessions, in 8 scenarios (UE-IP allocation, datapath down, scripted random sources yielding 0 / repeating / period 2, configured node id as FQDN and IP); each step calls the real HandlePFCPMsg and every datagram written to the peer socket is decoded and checked (count, type, sequence number, S flag/SEID, node id, UP F-SEID, Created PDR). Sequence numbers: all 2^24 values for Heartbeat and unknown-session Deletion in the thorough tier, boundary set + every 251st in quick.",
+         "Trusts go-pfcp's decoder (the agent uses the same one); the PFCPConn is assembled by the harness like NewPFCPConn does (in-memory socket, injected random source); acceptance is observed, not predicted.", "8/C02", "SEQ"),
+ "C18": ("exploration", "bounded-exhaustive enumeration of a document lattice x comment placements on the real loader vs. refConf + differential oracle",
+         "Documents = base (BESS|UP4) + at most 2 (quick) / 3 (thorough) deviations over a 34-field lattice of valid/boundary/invalid-type/invalid-value representatives; every document is loaded plain and with each of 10 comment forms in every token gap (2 forms for 2-deviation documents; two simultaneous comments for <=1 deviation), plus every truncation and a byte-mutation neighbourhood of the base documents and all shipped sample configurations. Oracle: no panic; a returned Conf satisfies refConf (defaults, durations parse, mode, CIDRs, peers), given scalar values arrive unchanged, and comments never change the result.",
+         "refConf is my reading of the statement; string values containing comment markers and multi-line block comments are only checked for crash-freedom/validity as the statement says.", "8/C18", "ENUM"),
  "C17": ("exploration", "bounded-exhaustive enumeration of the input domain on the real functions vs. interval-algebra reference",
          "Every (low,high) pair - thorough: all 2^31 ordered pairs for both strategies and all 2^32 pairs for classification/trivial conversion; quick: all pairs below 2048 plus the power-of-two/edge neighbourhood - is expanded by the real code and the rule set is compared with the set the range denotes; products over boundary-class range pairs; port texts. Complete over the property's own quantifier in the thorough tier.",
          "Trusts the ternary-match semantics p&mask==port&mask and the Go toolchain; 0-0 is wildcard by documented design.", "8/C17", "ENUM"),
@@ -28,7 +34,8 @@ m = dict(version=1,
          hooks=dict(guard="verif", enable="go test -c -tags verif -overlay <generated json> (harness files and, for the scheduler engine, mechanically rewritten copies of pfcpiface/*.go are injected at build time from /repo's current working tree; no hook commit exists in /repo)",
                     baseline_off_cmd="cd /repo && GOFLAGS=-mod=mod go test -vet=off -count=1 ./...",
                     source_commits=[], add_only=True),
-         engines=[dict(name="ENUM", path="/verif/harness", serves_properties=["C17"], kind_free_text="bounded-exhaustive input enumeration against a reference, on the real functions"),
+         engines=[dict(name="ENUM", path="/verif/harness", serves_properties=["C17", "C18"], kind_free_text="bounded-exhaustive input enumeration against a reference, on the real functions"),
+                  dict(name="SEQ", path="/verif/harness", serves_properties=["C02"], kind_free_text="explicit-state BFS over operation histories; each transition calls the real handler on a freshly built real instance (replay), state de-duplication by canonical key with agent-chosen identifiers renamed"),
                   ],
          checks=checks, not_applicable=na,
          notes="All checks run through ./vcheck (python orchestrator): it rebuilds the test binary from /repo's working tree with the harness overlaid, shards the enumeration over 16 worker processes, merges their results, compares finding signatures with known_findings.txt and writes evidence/<id>.json. Exit 2 = infrastructure error (never with a VIOLATION line).")
